@@ -1097,6 +1097,10 @@ impl<T: E> World<T> {
             if bad {
               self.monitor(format!("capacity_contract:{}:{}:{}:{}>{}", name, l0, a, c0, c1));
             }
+            if name == "shrinkto" && a > c0 {
+              // shrink_to panics when asked for more than the capacity
+              self.monitor("accepted_out_of_range:shrinkto".into());
+            }
           }
           Err(_) => {
             out = "panic";
